@@ -103,10 +103,36 @@ def innermost_batchie_frame(tb):
     return last
 
 
+INTERRUPT_COUNTS = {"interrupted_first_runs": 0}
+
+
+def _interrupted_first(mod, case):
+    """(process-configuration sweep) for one case in three, the case is first evaluated with a KeyboardInterrupt injected at a
+    line of the tree under test chosen by the case's hash (vf.interrupt) and whatever that run raises is discarded; the case is then
+    evaluated normally.  The interrupted run promises nothing - but it must not leave module-level or class-level state of the
+    package behind that makes a later, ordinary use (on freshly built objects) go wrong."""
+    import hashlib
+
+    from . import interrupt
+
+    h = int(hashlib.sha1(json.dumps(sanitize(case), sort_keys=True, default=str).encode()).hexdigest()[:12], 16)
+    if h % 3:
+        return
+    k = 1 + (h // 3) % [40, 400, 4000][(h // 7) % 3]
+    try:
+        how, _ = interrupt.interrupted_at(lambda: mod.check_case(case), k)
+        if how == "interrupted":
+            INTERRUPT_COUNTS["interrupted_first_runs"] += 1
+    except BaseException:  # noqa: the first evaluation is only there to be interrupted
+        pass
+
+
 def run_case(mod, case):
     """check_case with the exception policy: Violation stays; an unanticipated exception raised from inside the
     repository's code is a violation ('handled or rejected cleanly' is part of every property's returns-clause);
     anything else is a harness error."""
+    if os.environ.get("VERIF_INTERRUPT_FIRST") == "1":
+        _interrupted_first(mod, case)
     try:
         return mod.check_case(case) or {}
     except (Violation, Skip, HarnessError):
@@ -324,15 +350,18 @@ def _shard_entry(args):
 # ---------------------------------------------------------------- driver
 
 
-SWEEP_ENV_KEYS = ("PYTHONOPTIMIZE", "PYTHONHASHSEED", "PANDAS_COPY_ON_WRITE", "VERIF_LOGGING", "VERIF_WEAK_HASH")
+SWEEP_ENV_KEYS = ("PYTHONOPTIMIZE", "PYTHONHASHSEED", "PANDAS_COPY_ON_WRITE", "VERIF_LOGGING", "VERIF_WEAK_HASH", "OMP_NUM_THREADS", "VERIF_INTERRUPT_FIRST")
 
 
 def sweep_env(seed):
     """the other process configuration every check is also run under: assert statements stripped (python -O), another
     string-hash seed (set / dict iteration order of strings), pandas' copy-on-write mode switched on by its documented
     environment variable, the package's logger at DEBUG level (into a sink) instead of silenced, and collision injection: the
-    non-cryptographic hash functions keep three bits while the tree under test calls them (vf.tree._install_weak_hashes)"""
-    return {"PYTHONOPTIMIZE": "1", "PYTHONHASHSEED": str(1 + (seed * 7919) % 4000), "PANDAS_COPY_ON_WRITE": "1", "VERIF_LOGGING": "debug", "VERIF_WEAK_HASH": "1"}
+    non-cryptographic hash functions keep three bits while the tree under test calls them (vf.tree._install_weak_hashes); and
+    OMP_NUM_THREADS=4, the variable clusters set for every job (the BLAS behind numpy stays single-threaded through its own
+    OPENBLAS_NUM_THREADS / MKL_NUM_THREADS, so numerics are unchanged: what changes is what code reading that variable does); and
+    one case in three is first evaluated with an injected KeyboardInterrupt and then again normally (_interrupted_first)"""
+    return {"PYTHONOPTIMIZE": "1", "PYTHONHASHSEED": str(1 + (seed * 7919) % 4000), "PANDAS_COPY_ON_WRITE": "1", "VERIF_LOGGING": "debug", "VERIF_WEAK_HASH": "1", "OMP_NUM_THREADS": "4", "VERIF_INTERRUPT_FIRST": "1"}
 
 
 def sweep_budget(budget):
@@ -345,7 +374,7 @@ def envsweep_child(mod, tier, seed, outfile):
 
     stats = run_shard(mod, tier, seed, 90, sweep_budget(dict(mod.budgets(tier))))
     with open(outfile, "wb") as f:
-        pickle.dump({"evaluations": stats.evaluations, "nontrivial": len(stats.nontrivial), "skipped": stats.skipped, "failures": stats.failures, "timed_out": stats.timed_out, "optimize": sys.flags.optimize, "hashseed": os.environ.get("PYTHONHASHSEED")}, f)
+        pickle.dump({"evaluations": stats.evaluations, "nontrivial": len(stats.nontrivial), "skipped": stats.skipped, "failures": stats.failures, "timed_out": stats.timed_out, "optimize": sys.flags.optimize, "hashseed": os.environ.get("PYTHONHASHSEED"), "interrupted_first_runs": INTERRUPT_COUNTS["interrupted_first_runs"]}, f)
     return 0
 
 
@@ -475,6 +504,7 @@ def main_run(mod, tier, seed, replay=None):
         if sweep:
             total.extra["interpreter_config_sweep.evaluations"] += sweep["evaluations"]
             total.extra["interpreter_config_sweep.nontrivial"] += sweep["nontrivial"]
+            total.extra["interpreter_config_sweep.interrupted_first_runs"] += sweep.get("interrupted_first_runs", 0)
             if sweep["failures"]:
                 sweep_failure = sorted(sweep["failures"], key=lambda t: t[0])[0]
 
@@ -503,7 +533,7 @@ def main_run(mod, tier, seed, replay=None):
         path = write_replay(mod.ID, case, sub, msg, detail, env=env)
         violations = 1
         rc = 1
-        lines.append("violation [%s] (under python -O, PYTHONHASHSEED=%s, PANDAS_COPY_ON_WRITE=1, DEBUG logging, weak hashes): %s" % (sub, env["PYTHONHASHSEED"], msg))
+        lines.append("violation [%s] (under python -O, PYTHONHASHSEED=%s, PANDAS_COPY_ON_WRITE=1, DEBUG logging, weak hashes, OMP_NUM_THREADS=4, interrupted first evaluations): %s" % (sub, env["PYTHONHASHSEED"], msg))
         lines.append("VIOLATION property=%s replay=%s" % (mod.ID, path))
     wall = time.time() - t0
     write_evidence(mod, tier, seed, total, wall, violations, exhaustive, n_replays, budget)
